@@ -7,7 +7,7 @@ KeysB == {"k1", "k255", "kBin"}
 KLen  == [k \in KeysT |-> CASE k = "k1" -> 2 [] k = "k2" -> 2 [] k = "kBig" -> 256 [] k = "k255" -> 255 [] k = "kBin" -> 4]
 ValsQ == {"vE", "v1"}
 ValsT == {"vE", "v1", "v70k"}
-VLen  == [v \in ValsT |-> CASE v = "vE" -> 0 [] v = "v1" -> 3 [] v = "v70k" -> 70000]
+VLen  == [v \in ValsT \cup {"v1b"} |-> CASE v = "vE" -> 0 [] v = "v1" -> 3 [] v = "v1b" -> 3 [] v = "v70k" -> 70000]
 H2    == {"h1", "h2"}
 H3    == {"h1", "h2", "h3"}
 HdrQ  == {"hdDef", "hdFull"}
@@ -15,6 +15,12 @@ HL    == [h \in HdrQ |-> IF h = "hdDef" THEN 0 ELSE 25]
 DevNone == {}
 DevPhantom == {"PhantomToc"}
 DevStale == {"StaleReopen"}
+DevSizeOnly == {"SizeOnlyShortcut"}
+DevNeverClears == {"NeverClearsToc"}
+DevTruncKeeps == {"TruncateKeepsToc"}
+KeysX == {"k1", "k2"}
+HdrX == {"hdDef"}
+ValsE == {"v1", "v1b"}     \* two values of the same length
 
 View == sv
 Emit == PrintT(ToJson([from |-> sv, act |-> last', to |-> sv', obs |-> Obs']))
